@@ -200,8 +200,13 @@ func runC07(c *Ctx) {
 			}
 			k := f.KeyAt(enc, ept)
 			re, rept := f.Resolve(enc, ept)
-			// case A: loaded mark + interval
-			if b, ok := ast.Unparen(re).(*ast.BinaryExpr); ok && b.Op == token.ADD {
+			// case A: loaded mark + interval - or, for a saturating reservation, that sum on some paths
+			// and the top of the number space (math.MaxUint64: never below any earlier mark) on the others
+			markPlusInterval := func(re ast.Expr, rept Point) bool {
+				b, ok := ast.Unparen(re).(*ast.BinaryExpr)
+				if !ok || b.Op != token.ADD {
+					return false
+				}
 				a, c := stripRoot(f.KeyAt(b.X, rept)), stripRoot(f.KeyAt(b.Y, rept))
 				base := b.X
 				if a == ".interval" {
@@ -225,16 +230,36 @@ func runC07(c *Ctx) {
 					}
 					isNext = isNext && n > 0
 				}
-				if isNext && c == ".interval" {
-					// next must have been (re)loaded from the store or initialised on not-found on every
-					// path since the lease was found exhausted
-					if wit, found := f.PathFromEntryAvoiding(pt, assignsField("next"), nil); found {
-						r.Fail("seq/durable-mark-monotone", key, p.posStr(sc.Pos()), "a path reaches the store write without loading the stored mark into next", wit...)
-					} else {
-						r.Pass("seq/durable-mark-monotone", key, p.posStr(sc.Pos()), "writes loaded mark + interval")
+				return isNext && c == ".interval"
+			}
+			caseA := markPlusInterval(re, rept)
+			if !caseA {
+				if _, isId := ast.Unparen(re).(*ast.Ident); isId {
+					if os := f.Origins(re, rept); len(os) > 1 {
+						nSum := 0
+						all := true
+						for _, o := range os {
+							switch {
+							case rawKey(o.E) == "math.MaxUint64":
+							case markPlusInterval(o.E, o.At):
+								nSum++
+							default:
+								all = false
+							}
+						}
+						caseA = all && nSum > 0
 					}
-					continue
 				}
+			}
+			if caseA {
+				// next must have been (re)loaded from the store or initialised on not-found on every
+				// path since the lease was found exhausted
+				if wit, found := f.PathFromEntryAvoiding(pt, assignsField("next"), nil); found {
+					r.Fail("seq/durable-mark-monotone", key, p.posStr(sc.Pos()), "a path reaches the store write without loading the stored mark into next", wit...)
+				} else {
+					r.Pass("seq/durable-mark-monotone", key, p.posStr(sc.Pos()), "writes loaded mark + interval")
+				}
+				continue
 			}
 			// case B: write-back of next, needs an active lease
 			if stripRoot(k) != ".next" {
